@@ -273,6 +273,14 @@ def run(repo: Repo, rep: Report, tier: str) -> None:
     check_queue_order(repo, rep)
     check_type_dispatch(repo, rep)
 
+    # ---- every response can be converted ------------------------------------------------------------------
+    from .c17 import check_dimse_numeric_ranges
+    rep.rule("response-convertible", "a response to any legal Message ID (0 .. 65535) converts to a primitive (C17's numeric-range)")
+    check_dimse_numeric_ranges(repo, rep, "response-convertible")
+    from .c15 import check_every_pdv_classified, check_message_reset
+    rep.rule("response-complete", "every received PDV is classified by its control header (C15): a response ending in a zero-length last fragment completes")
+    check_every_pdv_classified(repo, rep, "response-complete")
+
 def check_queue_order(repo: Repo, rep: Report) -> None:
     """DIMSEServiceProvider.get_msg() is the single consumer of the queue the provider thread fills in
     arrival order (responses first, the (None, None) abort sentinel behind them). It may hand out only
